@@ -138,6 +138,15 @@ CLAIMED = {
     note='Printable ASCII. The lexer model depends on Base/Regex.v (validated against Python re). Exponential parse time limits nesting depth '
          '(20 s alarm). Known finding: blank_inside_boolean_call.',
     technique='regenerated tables + Coq proof (induction on fuel/alternatives) + vm_compute correspondence', ref='6/C05'),
+ 'C19': dict(
+    text='Coq theorems over a model of the safety gate that runs the two regex strings REGENERATED from Excel._get_suspicious_constructions '
+         'through the Gallina regex engine: kernel-exhaustive — for all 19 607 texts of length <=5 over {a,B,_,1,(,),blank} a cell is listed exactly '
+         'when it contains call syntax and no upper-case call, outside one exact defect class; unbounded — the report key carries letters that denote '
+         'the cell\'s true column for every column, the gate never raises when disabled, an innocent workbook is never rejected (facade model). '
+         'Correspondence: real xlsx workbooks with planted fragments at positions with row<>column over several sheets, check on/off, the '
+         'exception\'s report compared key by key and fragment by fragment; toggling histories on one parser.',
+    note='Bounded sweep (bound in the theorem). Reading of the workbook is C18\'s. Known finding: upper_suffix_identifier_escapes.',
+    technique='regenerated regexes + Coq kernel-exhaustive sweep + Coq proofs on the facade model + vm_compute correspondence', ref='6/C19'),
 }
 
 ids = [json.loads(l)['id'] for l in open('/verif/properties.jsonl')]
